@@ -1293,6 +1293,60 @@ static void wlExact(Ctx& c, int nexec, int len, int maxDim)
    }
 }
 
+
+// ---------------------------------------------------------------- C11 (second half): rational basis inverse queries on a solver basis
+static std::string ssq(const SSVectorRational& v, int n) { return jarr(n, [&](int i) { return jq(i < v.dim() ? qrat(v[i]) : std::string("nan")); }); }
+static void binvQQueries(Ctx& c, int o)
+{
+   SoPlex& s = *c.objs[o]; int nr = s.numRowsRational();
+   if(nr == 0) return;
+   auto ev0 = [&](const char* kind, int idx) { J ev; ev.s("a", "binvq").i("o", o).s("kind", kind).i("idx", idx); return ev; };
+   auto bindNow = [&](bool& ok) { DataArray<int> b; ok = s.getBasisIndRational(b); return ok ? jints(b.get_ptr(), b.size()) : std::string("[]"); };
+   int which = c.rng.R(0, 9);
+   if(which == 0) { pending() = "computeBasisInverseRational"; bool ret = s.computeBasisInverseRational(); bool ok; std::string b = bindNow(ok);
+                    J ev = ev0("compute", 0); ev.b("ret", ret).raw("res", "[]").raw("vec", "[]").b("bindOK", ok).raw("bind", b); emit(c, o, ev); return; }
+   if(which == 1) { pending() = "getBasisIndRational"; bool ok; std::string b = bindNow(ok);
+                    J ev = ev0("ind", 0); ev.b("ret", ok).raw("res", "[]").raw("vec", "[]").b("bindOK", ok).raw("bind", b); emit(c, o, ev); return; }
+   int idx = c.rng.R(0, nr - 1);
+   SSVectorRational res(nr); bool ret; std::string vecj = "[]"; const char* kind;
+   if(which < 5) { kind = "row"; pending() = "getBasisInverseRowRational"; ret = s.getBasisInverseRowRational(idx, res); }
+   else if(which < 8) { kind = "col"; pending() = "getBasisInverseColRational"; ret = s.getBasisInverseColRational(idx, res); }
+   else
+   {
+      kind = "times"; DSVectorRational rhs(nr); VectorRational dense(nr); dense.clear();
+      for(int i = 0; i < nr; i++) if(c.rng.coin()) { Rational v = Rational(c.rng.R(-5, 5)) / Rational(c.rng.R(1, 4)); if(v != 0) { rhs.add(i, v); dense[i] = v; } }
+      vecj = qvec(dense);
+      pending() = "getBasisInverseTimesVecRational"; ret = s.getBasisInverseTimesVecRational(rhs, res);
+   }
+   bool ok; std::string b = bindNow(ok);
+   J ev = ev0(kind, idx); ev.b("ret", ret).raw("res", ret ? ssq(res, nr) : std::string("[]")).raw("vec", vecj).b("bindOK", ok).raw("bind", b); emit(c, o, ev);
+}
+static void wlBinvQ(Ctx& c, int nexec, int len)
+{
+   static const char* kinds[] = {"OPT", "OPT", "OPT", "INF", "UNB"};
+   for(int e = 0; e < nexec; e++)
+   {
+      T().line("{\"a\":\"Reset\"}");
+      c.objs.clear(); c.nextId = 0;
+      GenQ genq{c.rng}; Gen gen{c.rng, 0};
+      int o = createObj(c);
+      setInt(c, o, "SYNCMODE", SoPlex::SYNCMODE, SoPlex::SYNCMODE_AUTO);
+      exactConfig(c, o, 0);
+      LPDataQ Q = genWitnessedQ(c.rng, 4, kinds[c.rng.R(0, 4)], c.rng.coin());
+      loadLPQ(c, o, Q); witnessQ(c, o, Q);
+      for(int step = 0; step < len; step++)
+      {
+         int k = c.rng.R(0, 99); SoPlex& s = *c.objs[o]; bool solvable = s.numCols() > 0 && s.numRows() > 0;
+         if(k < 15) { if(!solvable) continue; SolveOpts so; so.complete = false; optimizeQ(c, o, so); binvQQueries(c, o); }
+         else if(k < 30) { setRandomBasis(c, o); binvQQueries(c, o); }
+         else if(k < 35) clearBasis(c, o);
+         else if(k < 65) binvQQueries(c, o);
+         else if(k < 85) { int tries = 0; while(!randomModRat(c, o, genq, 5) && ++tries < 50) {} }
+         else { int tries = 0; while(!randomModReal(c, o, gen, 5) && ++tries < 50) {} }
+      }
+   }
+}
+
 // ---------------------------------------------------------------- C14: basis files
 static std::string fileTokens(const std::string& fn)
 {
@@ -1562,6 +1616,7 @@ static int runWorkload(Ctx& c, const std::string& wl, int len)
    else if(wl == "basfile") wlBasFile(c, 1, len);
    else if(wl == "exact") wlExact(c, 1, len, 5);
    else if(wl == "exactbig") wlExact(c, 1, len, 12);
+   else if(wl == "binvq") { g_wellScaled = false; wlBinvQ(c, 1, len); }
    else if(wl == "binv") { g_wellScaled = false; wlBinv(c, 1, len); }
    else if(wl == "scale") { g_wellScaled = false; wlScale(c, 1, len); }
    else if(wl == "scalerbare") wlScalerBare(c, 1, len);
@@ -1584,13 +1639,15 @@ int main(int argc, char** argv)
    g_tmpdir = std::string(argv[5]) + ".d"; { std::string cmd = "mkdir -p '" + g_tmpdir + "'"; if(system(cmd.c_str()) != 0) return 2; }
    { FILE* f = fopen(argv[5], "w"); if(!f) { perror(argv[5]); return 2; } fclose(f); }
    bool nofork = getenv("VERIF_NOFORK") != nullptr;
+   int onlyExec = getenv("VERIF_EXEC") ? atoi(getenv("VERIF_EXEC")) : -1;     // debugging: run one execution of the shard only
    for(int e = 0; e < nexec; e++)
    {
+      if(onlyExec >= 0 && e != onlyExec) continue;
       pid_t pid = nofork ? 0 : fork();
       if(pid == 0)
       {
          T().f = fopen(argv[5], "a"); if(!T().f) _exit(2);
-         installCrashHandlers();
+         if(!nofork) installCrashHandlers();
          Ctx c(seed * 1000003UL + (unsigned long)e); g_execIndex = e; g_nexec = nexec;
          int rc = runWorkload(c, wl, len);
          T().close();
